@@ -195,3 +195,12 @@ def f_float(it, x=None):
             return SFloat(uf("float_parse", z3.StringSort(), z3.RealSort())(x.t))
         it.raise_(ValueError, "could not convert string to float")
     it.raise_(TypeError, "float() argument must be a string or a real number")
+
+
+@function(vars)
+def f_vars(it, o):
+    """vars(obj) for an instance: its attribute dict (a fresh dict holding the same values; callers here only read/copy it)"""
+    o = it.resolve(o)
+    if isinstance(o, SObj):
+        return SDict([(SStr(k), v) for k, v in o.fields.items()])
+    raise Unsupported(f"vars({o!r})")
